@@ -446,3 +446,25 @@ def heap1(cfg):
     res.count('allocator cases', n)
     res.floor('allocator cases', 2)
     return res
+
+
+def del1(cfg):
+    """DEL-1: every node deleter releases (or retires) the node it was given, in every build configuration"""
+    from ..engine import dominators
+    res = RuleResult('DEL-1', 'the four node deleters (basic_db_leaf_deleter, basic_db_inode_deleter: immediate; db_leaf_qsbr_deleter, db_inode_qsbr_deleter: through QSBR) hand the pointer they were given to free_aligned resp. on_next_epoch_deallocate exactly once on every path - in every build configuration, statistics compiled out included (the statistics blocks around the call are the only conditional code there): a deleter that does not is a leak of every node it is asked to delete')
+    for f in [g for g in cfg.functions if g.blocks and g.short == 'operator()' and re.match(r'unodb::detail::(basic_db_leaf_deleter|basic_db_inode_deleter|db_leaf_qsbr_deleter|db_inode_qsbr_deleter)<', g.cls) and len(g.params) == 1]:
+        res.count('deleters')
+        res.functions.add(f.sig)
+        dom = dominators(f)
+        exit_doms = dom.get(f.exit, set())
+        calls = []
+        for b, i, e in f.elements():
+            if e.get('k') == 'call' and e.get('name') in ('free_aligned', 'on_next_epoch_deallocate') and not is_assert_elem(e) and e.get('args'):
+                r = f.ref_of(e['args'][0])
+                calls.append((b, e, bool(r and r[0] == f.params[0]['did'])))
+        ok = len(calls) == 1 and calls[0][0] in exit_doms and calls[0][2]
+        res.ob(ok, {'rule': 'DEL-1', 'deleter': sh(f.cls)[:100], 'site': fileline(f.loc), 'verdict': 'discharged' if ok else 'VIOLATION'})
+        if not ok:
+            res.find(f, f.loc, '%s::operator() %s: every node handed to this deleter %s' % (sh(f.cls).split('<')[0], 'has no call of free_aligned / on_next_epoch_deallocate in this configuration' if not calls else ('releases something else than the pointer it was given' if not all(c[2] for c in calls) else 'does not release the node exactly once on every path'), 'stays allocated for ever (clear(), destruction, grow / shrink all go through it)' if not calls else 'is leaked or released wrongly'), key='DEL-1:%s' % sh(f.cls).split('<')[0].split('::')[-1], config=cfg.name)
+    res.floor('deleters', 4)
+    return res
